@@ -194,9 +194,8 @@ class SyncedDict(SyncedCollection, MutableMapping):
 
         """
         if _mapping_resolver.get_type(data) == "MAPPING":
-            self._update(data)
-            with self._thread_lock:
-                self._save()
+            with self._overwrite_context():
+                self._update(data)
         else:
             raise ValueError(
                 "Unsupported type: {}. The data must be a mapping or None.".format(
@@ -231,9 +230,8 @@ class SyncedDict(SyncedCollection, MutableMapping):
         return ret
 
     def clear(self):  # noqa: D102
-        self._data = {}
-        with self._thread_lock:
-            self._save()
+        with self._overwrite_context(), self._suspend_sync:
+            self._data.clear()
 
     def update(self, other=None, **kwargs):  # noqa: D102
         if other is not None:
